@@ -63,6 +63,10 @@ fn done_ok(r: Option<Rep>) -> Result<(), String> {
 }
 
 pub fn history(r: &mut Rng, res: &mut CaseResult, steps: usize) {
+    if r.chance(1, 3) {
+        session::ambient_jitter(Some(r.next()));
+        res.tags.insert("transport jitter".to_string());
+    }
     let fp = if r.chance(1, 2) { r.range(200, 1500) } else { 0 };
     hooks::set_failpoint_delay(fp);
     let fp0 = hooks::failpoints_hit();
